@@ -35,7 +35,8 @@ SCOPES = {
     "define": "declarations", "amend": "declarations", "static": "declarations", "tree": "declarations",
     "declstatic": "declarations",
     "nglob": "declarations", "hashes": "propagation", "mark_pending": "propagation", "rescan_env": "startup",
-    "setenv": "startup", "pop": "scheduler", "update_meta": "scheduler", "hold": "scheduler",
+    "setenv": "startup",
+    "retarget": "startup", "check_consistency": "startup", "pop": "scheduler", "update_meta": "scheduler", "hold": "scheduler",
     "release": "scheduler", "reset_rerun": "completion", "completed": "completion", "set_state": "completion",
     "delete_hash": "completion", "revert_optional": "cleanup", "delete_detached": "cleanup",
     "clear_queue": "cleanup", "reset_interrupted": "startup", "reconcile": "startup", "reset": "startup",
@@ -160,6 +161,8 @@ class KernelRun:
             os.environ.pop(name, None)
         os.environ.update(self.env)
         res_spec = ",".join(f"{k}:{v}" for k, v in avail.items()) or None
+        self.res_spec, self.cap = res_spec, cap
+        self.targets, self.tdirs = targets, tdirs
         self.wf, self.sched = await cm.enter_async_context(
             implkit.workflow(targets=targets, target_dirs=tdirs, defer_cap=cap, resources=res_spec,
                              with_scheduler=True))
@@ -401,6 +404,11 @@ class KernelRun:
         await self.step_op("completed", "./consume.py", "~", 1,
                            fn=lambda: wf.find(Step, "./consume.py").mark_completed(None, True),
                            result=lambda v: kdump.b01(v))
+        ready = await self.q(lambda: all(wf.find(File, str(rec.path)).get_state() in (FileState.OUTDATED, FileState.BUILT)
+                                         for rec in wf.find(Step, "produce").out_paths()))
+        if not ready:
+            await self.complete_ok("produce")
+            return
         tok = self.newtok()
         await self.step_op("completed", "produce", tok, 0,
                            fn=lambda: wf.find(Step, "produce").mark_completed(kdump.step_token(tok), False),
@@ -631,7 +639,12 @@ class KernelRun:
         if checking and (not running or r.random() < 0.5):
             step = r.choice(checking)
             k = r.random()
-            if k < 0.5:  # skip succeeds
+            complete = await self.q(lambda: all(
+                wf.find(File, str(rec.path)).get_state() in (FileState.BUILT, FileState.VOLATILE)
+                for rec in wf.find(Step, step).out_paths()) and
+                all(wf.find(File, str(rec.path)).get_state() == FileState.VOLATILE
+                    for rec in wf.find(Step, step).vol_paths()))
+            if k < 0.5 and complete:  # skip succeeds (the executor requires every output on disk)
                 tok = self.newtok()
                 await self.step_op("completed", step, tok, 0,
                                    fn=lambda: wf.find(Step, step).mark_completed(kdump.step_token(tok), False),
@@ -732,19 +745,41 @@ class KernelRun:
         await self.simple("clear_queue", lambda: None)
 
     async def restart(self):
+        """What a new director does with the stored workflow before its first dispatch: a new
+        `Workflow` (consistency check with repair) and `Scheduler` on the same database, possibly
+        with other targets, interrupted steps reset, environment rescanned, targets reconciled."""
         import os
 
-        wf = self.wf
+        from stepup.core.scheduler import Scheduler
         from stepup.core.startup import rescan_env_vars, reset_interrupted_steps
+        from stepup.core.workflow import Workflow
 
+        r = self.r
+        old = self.wf
+        if r.random() < 0.35:
+            targets = r.sample(PATHS, r.choice([0, 0, 1, 2]))
+            tdirs = [d.rstrip("/") + "/" for d in r.sample(DIRS[:4], r.choice([0, 0, 0, 1]))]
+            self.targets, self.tdirs = targets, tdirs
+            self.lines.append(f"k retarget {hexlist(sorted(targets))} {hexlist(sorted(tdirs))}")
+            async with old.db:
+                self.impl.append("ok - " + self._digest())
+            self.ops.append("retarget")
+            await self.notify()
+        wf = Workflow(old.db, dir_queue=None, defer_cap=self.cap, targets=self.targets, target_dirs=self.tdirs)
+        implkit.WATCHDOGS[id(wf)] = implkit.WATCHDOGS[id(old)]
+        self.wf = wf
+        await self.coro_op("check_consistency", lambda: wf.initialize())
+        sched = Scheduler(wf, db=old.db)
+        await sched.initialize(self.res_spec)
+        self.sched = sched
         await self.coro_op("reset_interrupted", lambda: reset_interrupted_steps(wf, SilentReporter()))
-        if self.r.random() < 0.5:
-            name = self.r.choice(ENVS)
-            if name in self.env and self.r.random() < 0.5:
+        if r.random() < 0.5:
+            name = r.choice(ENVS)
+            if name in self.env and r.random() < 0.5:
                 del self.env[name]
                 os.environ.pop(name, None)
             else:
-                self.env[name] = self.r.choice(["x", "y", "z"])
+                self.env[name] = r.choice(["x", "y", "z"])
                 os.environ[name] = self.env[name]
             self.lines.append(f"k setenv {pairs_tok(self.env)}")
             async with wf.db:
@@ -752,7 +787,22 @@ class KernelRun:
             self.ops.append("setenv")
             await self.notify()
             await self.coro_op("rescan_env", lambda: rescan_env_vars(wf, SilentReporter()))
-        await self.simple("reconcile", lambda: wf.reconcile_targets())
+        ans = await self.tx("k reconcile", lambda: wf.reconcile_targets())
+        if not ans.startswith("ok"):
+            # The director refuses to start with these targets: the user starts it again without.
+            self.targets = []
+            self.lines.append(f"k retarget . {hexlist(sorted(self.tdirs))}")
+            async with wf.db:
+                self.impl.append("ok - " + self._digest())
+            self.ops.append("retarget")
+            await self.notify()
+            wf = Workflow(old.db, dir_queue=None, defer_cap=self.cap, targets=(), target_dirs=self.tdirs)
+            implkit.WATCHDOGS[id(wf)] = implkit.WATCHDOGS[id(old)]
+            self.wf = wf
+            await self.coro_op("check_consistency", lambda: wf.initialize())
+            self.sched = Scheduler(wf, db=old.db)
+            await self.sched.initialize(self.res_spec)
+            await self.tx("k reconcile", lambda: wf.reconcile_targets())
 
     async def generate(self, cm, nops: int):
         r = self.r
